@@ -3,7 +3,7 @@
    correspondence on the verdict code and the compiled property list.  Spec/Inherit.v: what a merge IS, declaratively
    (Merged / Ext / Kids): no traversal order, no fuel, no error codes. *)
 From Coq Require Import List NArith Bool.
-From JS Require Import Base.Res Model.AllOf Spec.Inherit Proofs.AllOfProofs.
+From JS Require Import Base.Res Model.AllOf Spec.Inherit Proofs.AllOfProofs Proofs.AllOfTermination.
 Import ListNotations.
 
 (* the compiler accepts exactly the merges: what it returns is the merge ... *)
@@ -62,6 +62,21 @@ Theorem C07_compile_refuses : forall defs f root names c, compile_allof defs f r
 Proof. exact compile_refuses. Qed.
 Print Assumptions C07_compile_accepts.
 Print Assumptions C07_compile_refuses.
+
+(* the compiler terminates: for every set of definitions, every stack and every node there is a fuel with which it
+   answers - a compiled node or a refusal (and more fuel never changes the answer: AllOfProofs.cnode_mono).  The measure:
+   the defined names not yet on the stack, then the structure of the node; inherited properties are already flat *)
+Theorem C07_terminates : forall defs st n, exists f, (exists r, cnode defs f st n = Ok r) \/ (exists c, cnode defs f st n = Err c).
+Proof. exact cnode_total. Qed.
+Print Assumptions C07_terminates.
+(* hence the compiler DECIDES inheritance: a merge exists exactly when some fuel returns it, otherwise some fuel refuses *)
+Theorem C07_decides : forall defs st n, (exists r, Merged defs st n r) \/ (forall r, ~ Merged defs st n r).
+Proof.
+  intros defs st n. destruct (cnode_total defs st n) as [f [[r H]|[c H]]].
+  - left. exists r. eapply cnode_sound. exact H.
+  - right. eapply refusal_means_no_merge. exact H.
+Qed.
+Print Assumptions C07_decides.
 
 (* non-vacuity: a diamond-free two-level inheritance is a merge with the expected property list *)
 Example C07_example :
